@@ -380,6 +380,11 @@ def o82(ctx):
     ctx.count(n_calls, {"reset_index calls on particle tables": n_calls})
     q = M + "renumber_objects_sequentially"
     m, fn = ctx.prog.func(q)
+    # interpreted on a list whose row labels are not known to be 0..n-1 (a selection, a part of a split): what it assigns into the table
+    # is typed by the row-label rules (OX.L reads the events of this run)
+    it_ = Interp(ctx.prog)
+    it_.run(q, [P("starting_number")], {}, self_obj=motl_obj(ctx.prog))
+    ctx.count(1, {"interpreted for the row-label rules": q})
     issues, n = apicompat.check_function(ctx.prog, q)
     ctx.count(max(n, 1))
     for i in issues:
